@@ -52,6 +52,7 @@ import (
 	"github.com/chihaya/chihaya/frontend/udp"
 	"github.com/chihaya/chihaya/middleware"
 	cjwt "github.com/chihaya/chihaya/middleware/jwt" // also registers the "jwt" middleware driver
+	"github.com/chihaya/chihaya/pkg/metrics"
 	"github.com/chihaya/chihaya/pkg/stop"
 	"github.com/chihaya/chihaya/storage"
 	"github.com/chihaya/chihaya/storage/memory"
@@ -840,7 +841,53 @@ func c16Gated(o *Out, fe int, scrape bool, mode int, slow bool) {
 
 // ---------------------------------------------------------------- (b) NewFrontend; Stop
 
+// c16RaceMetrics: metrics.NewServer immediately followed by Stop, on ONE processor (the goroutine NewServer starts has
+// not run when Stop's goroutine does).  The port is probed by binding it, before the processors are given back.  Repeated
+// five times on fresh ports; "still open" is reported only if it was in every round (the library's own ListenAndServe has
+// a window of a few instructions between binding and registering the listener; one preemption there is not the component's).
+func c16RaceMetrics(o *Out) {
+	old := runtime.GOMAXPROCS(1)
+	const rounds = 5
+	done, nopen, nerrs := true, 0, 0
+	var addrs []string
+	for i := 0; i < rounds; i++ {
+		addr := fmt.Sprintf("127.0.0.1:%d", c16FreePort(false))
+		addrs = append(addrs, addr)
+		s := metrics.NewServer(addr)
+		res := &c16Res{ch: s.Stop()}
+		if !res.wait(c16Long) {
+			done = false
+			break
+		}
+		nerrs += len(res.errs)
+		if l, err := net.Listen("tcp4", addr); err != nil {
+			nopen++
+		} else {
+			l.Close()
+		}
+	}
+	runtime.GOMAXPROCS(old)
+	// let whatever was left behind notice the shutdown
+	for _, a := range addrs {
+		for dl := time.Now().Add(2 * time.Second); time.Now().Before(dl); time.Sleep(2 * time.Millisecond) {
+			if l, err := net.Listen("tcp4", a); err == nil {
+				l.Close()
+				break
+			}
+		}
+	}
+	open := done && nopen == rounds
+	o.add(Case{Kind: "race-metrics",
+		Coq: fmt.Sprintf("CRace 2 1 %s %d %s false", cBool(done), nerrs, cBool(open)),
+		In:  map[string]interface{}{"t": "race", "fe": 2, "procs": 1},
+		Obs: map[string]interface{}{"delivered": done, "errors": nerrs, "rounds": rounds, "rounds_port_open_after_stop": nopen, "port_open_after_stop": open}})
+}
+
 func c16Race(o *Out, fe, procs int) {
+	if fe == 2 {
+		c16RaceMetrics(o)
+		return
+	}
 	old := runtime.GOMAXPROCS(procs)
 	ps := c16Mem()
 	lg := newC16Logic(ps, nil, nil)
@@ -972,6 +1019,9 @@ type c16ROp struct {
 	Peer    int    `json:"peer,omitempty"`
 	Seeder  bool   `json:"seeder,omitempty"`
 	Stopped bool   `json:"stopped,omitempty"`
+	// reload: the operator EDITED the configuration file before asking for the reload (1: storage gc_interval,
+	// 2: announce_interval, 3: gc_interval and prometheus_reporting_interval): the swarm contents are still the same afterwards
+	Edit int `json:"edit,omitempty"`
 }
 
 var (
@@ -1035,6 +1085,8 @@ func c16Reload(o *Out, kind string, ops []c16ROp) {
 	}
 	var p *c16Proc
 	var httpAddr, udpAddr string
+	var cfgText, cfgFile string
+	edits := 0
 	for attempt := 0; attempt < 10 && p == nil; attempt++ {
 		httpAddr = fmt.Sprintf("127.0.0.1:%d", c16FreePort(false))
 		udpAddr = fmt.Sprintf("127.0.0.1:%d", c16FreePort(true))
@@ -1072,6 +1124,7 @@ func c16Reload(o *Out, kind string, ops []c16ROp) {
 		if err := os.WriteFile(cfgPath, []byte(cfg), 0o644); err != nil {
 			panic(err)
 		}
+		cfgText, cfgFile = cfg, cfgPath
 		cmd := exec.Command(bin)
 		cmd.Env = append(os.Environ(), "VERIF_C16_CONFIG="+cfgPath)
 		in, _ := cmd.StdinPipe()
@@ -1156,6 +1209,20 @@ func c16Reload(o *Out, kind string, ops []c16ROp) {
 			items = append(items, fmt.Sprintf("RScr %d %d %s %d %d", op.Via, op.IH, cBool(ok), c, i))
 			obs = append(obs, map[string]interface{}{"ok": ok, "complete": c, "incomplete": i})
 		case "reload":
+			if op.Edit != 0 {
+				edits++
+				t := cfgText
+				if op.Edit&1 != 0 {
+					t = strings.Replace(t, "gc_interval: 3h", fmt.Sprintf("gc_interval: %dh", 3+edits), 1)
+				}
+				if op.Edit&2 != 0 {
+					t = strings.Replace(t, "announce_interval: 30m", fmt.Sprintf("announce_interval: %dm", 30+edits), 1)
+				}
+				if op.Edit == 3 {
+					t = strings.Replace(t, "prometheus_reporting_interval: 3h", fmt.Sprintf("prometheus_reporting_interval: %dh", 3+edits), 1)
+				}
+				_ = os.WriteFile(cfgFile, []byte(t), 0o644)
+			}
 			ok := p.say("reload")
 			items = append(items, "RReload "+cBool(ok))
 			obs = append(obs, map[string]interface{}{"ok": ok})
@@ -1179,7 +1246,7 @@ func c16GenReload(rng *rand.Rand, nops int) []c16ROp {
 		default:
 			if len(ops) > 0 && reloads < 3 {
 				reloads++
-				ops = append(ops, c16ROp{T: "reload"})
+				ops = append(ops, c16ROp{T: "reload", Edit: rng.Intn(4)})
 				// what the property talks about: the same contents right after the reload
 				ops = append(ops, c16ROp{T: "scr", Via: rng.Intn(2), IH: 0}, c16ROp{T: "scr", Via: rng.Intn(2), IH: 1})
 			}
@@ -1408,6 +1475,9 @@ func c16Stream(o *Out, rng *rand.Rand, n int) {
 		for fe := 0; fe < 2; fe++ {
 			c16Race(o, fe, 1)
 			c16Race(o, fe, many)
+		}
+		if i < 3 {
+			c16Race(o, 2, 1)
 		}
 	}
 	o.notes["c16_quiet_ms"] = c16Quiet / time.Millisecond
